@@ -67,17 +67,76 @@ def gen_population(rng, sizes, scale=2):
   return pop
 
 
-def client_dataset(data):
+def client_dataset(data, xdtype='float32'):
+  """xdtype float16: the dyadic data are exact in it; the loss promotes to float32."""
   import fedjax
   n = len(data['y'])
   return fedjax.ClientDataset({
-      'x': np.asarray(data['x'], dtype=np.float32).reshape(n, D),
-      'y': np.asarray(data['y'], dtype=np.float32).reshape(n),
+      'x': np.asarray(data['x'], dtype=np.dtype(xdtype)).reshape(n, D),
+      'y': np.asarray(data['y'], dtype=np.dtype(xdtype)).reshape(n),
       'i': np.arange(n, dtype=np.int32)})
 
 
 def cid_bytes(cid):
   return b'c%03d' % int(cid)
+
+
+def cid_form(cid, form='bytes'):
+  """Client ids as bytes (fedjax's own), str, or int (client id 0 is falsy but valid)."""
+  return cid_bytes(cid) if form == 'bytes' else ('c%03d' % int(cid)) if form == 'str' else int(cid)
+
+
+def cid_back(k):
+  """Canonical 'cNNN' spelling of a client id in any of the three forms."""
+  return k.decode() if isinstance(k, bytes) else k if isinstance(k, str) else 'c%03d' % int(k)
+
+
+def make_key(seed, form='jax'):
+  import jax
+  k = jax.random.PRNGKey(seed)
+  return np.asarray(k) if form == 'numpy' else k
+
+
+def make_params(values, form='jax'):
+  import jax.numpy as jnp
+  return {'w': np.asarray(values, dtype=np.float32) if form == 'numpy' else jnp.asarray(values, dtype=jnp.float32)}
+
+
+FORMS0 = {'clients': 'list', 'ids': 'bytes', 'init': 'jax', 'key': 'jax'}
+
+
+def gen_forms(rng):
+  """Item 1 of WAVE3: delivery forms of the arguments of apply / init."""
+  return {'clients': rng.choice(['list', 'tuple']), 'ids': rng.choice(['bytes', 'str', 'int']),
+          'init': rng.choice(['jax', 'numpy']), 'key': rng.choice(['jax', 'numpy'])}
+
+
+class CallerData:
+  """Item 4 of WAVE3: snapshots of what the caller owns, compared after the calls (bits and containers)."""
+
+  def __init__(self):
+    self.arrays = []       # (label, live object, copy)
+    self.problems = []
+
+  def watch(self, label, arr):
+    self.arrays.append((label, arr, np.array(arr, copy=True)))
+
+  def watch_clients(self, label, clients):
+    self.arrays.append((label + ':container', clients, [id(c) for c in clients]))
+
+  def check(self):
+    for label, live, snap in self.arrays:
+      try:
+        if label.endswith(':container'):
+          if [id(c) for c in live] != snap:
+            self.problems.append(label + ' changed')
+        else:
+          now = np.asarray(live)
+          if now.dtype != snap.dtype or now.shape != snap.shape or now.tobytes() != snap.tobytes():
+            self.problems.append(label + ' changed')
+      except Exception as ex:   # a deleted (donated) buffer raises on access
+        self.problems.append(f'{label} unusable: {type(ex).__name__}')
+    return self.problems
 
 
 def hparams(hp):
